@@ -413,7 +413,9 @@ func runC20(k *sim.Kernel, p C20Plan) {
 		if p.DisposeRace > 0 && !p.Sched.Free {
 			for i := 0; i < p.DisposeRace && k.StepOnce(); i++ {
 			}
-			k.SleepHolding(1100 * time.Millisecond)
+			k.Deschedule(t, true)
+			k.Advance(1100 * time.Millisecond)
+			k.Deschedule(t, false)
 			k.Fault("dispose_descheduled_over_a_tick")
 		}
 		k.Settle()
